@@ -491,7 +491,7 @@ func genScenario(p *profile) func(t *rapid.T) Scenario {
 				continue
 			}
 			if p.cancelW > 0 && rapid.IntRange(0, 99).Draw(t, "cancelP") < p.cancelW {
-				g.add(Op{K: "cancel", Pick: rapid.IntRange(0, 7).Draw(t, "pick")})
+				g.add(Op{K: "cancel", Pick: rapid.IntRange(0, 7).Draw(t, "pick"), Srv: rapid.IntRange(0, 1).Draw(t, "ofFetcher")})
 				continue
 			}
 			x := rapid.IntRange(0, total-1).Draw(t, "op")
